@@ -189,7 +189,7 @@ def c15_queries(tier):
             qs.append(q)
     for n in (list(range(0, 17)) + [64, 65] if tier == 'quick' else list(range(0, 41)) + [64, 65, 66, 128, 254, 255]):
         q = domain_exact('C15-codes', n, extra=['-DVF_CHECK_CODES'])
-        if n >= 6:
+        if 6 <= n <= 254:
             q.covers = q.covers + ['code-delimiter', 'code-invalid-char', 'numeric', 'misplaced-hyphen']
         qs.append(q)
     Ne = 16 if tier == 'quick' else 40
@@ -236,7 +236,7 @@ def c03_queries(tier):
 def domain_exact(prefix, n, us=False, extra=(), **kw):
     return Query('%s-domain%s-len%d' % (prefix, '-us' if us else '', n), 'a_domain.c', repo=['src/is_ascii_domain.c'],
                  defs=D(VF_N=n, VF_EXACT_N=None) + (['-DLABELS_ALLOW_UNDERSCORE'] if us else []) + list(extra), unwind=n + 3,
-                 covers=['end'] + (['accepted-root-dot', 'accepted-hyphen'] if n >= 6 else []),
+                 covers=['end'] + (['accepted-root-dot', 'accepted-hyphen'] if 6 <= n <= 254 else []),
                  bounds={'len': n, 'alphabet': '0x01-0xFF (every byte arbitrary)', 'LABELS_ALLOW_UNDERSCORE': bool(us)},
                  functions=['is_ascii_domain'], timeout=5000, weight=n, solver='cadical' if n > 100 else None, **kw)
 
